@@ -1,7 +1,7 @@
 //! C06 — enrichment reports exact hypergeometric tail probabilities and fold changes.
 
 use crate::build::{via_builder, Finish};
-use crate::exact::hypergeom_tail;
+use crate::exact::{hypergeom_tail, hypergeom_tail_large};
 use crate::gen::pick;
 use crate::model::*;
 use crate::observe::guarded;
@@ -76,7 +76,139 @@ thread_local! {
 pub enum Case {
     Enrich { background: Vec<u32>, sample: Vec<u32> },
     Sweep { background: Vec<u32>, n: usize, kind: u8, rec: u32 },
+    /// population of real-HPO size: flat ontology with 20 000 leaves (see `large_records`)
+    Large { mode: u8, stride: u32, offset: u32, target: u8, k: u32, n: u32, rot: u32 },
 }
+
+pub const BIG_M: u32 = 20_000;
+/// (kind, record id, K, multiplier): the record is linked to the leaves with ((id * mult) % 20000) < K
+pub const LARGE_RECORDS: [(usize, u32, u32, u32); 10] = [
+    (GENE, 1, 1, 7),
+    (GENE, 2, 7, 11),
+    (GENE, 3, 60, 13),
+    (GENE, 4, 400, 17),
+    (GENE, 5, 1101, 19),
+    (GENE, 6, 5000, 23),
+    (GENE, 7, 12000, 29),
+    (GENE, 8, 19000, 31),
+    (OMIM, 1, 1101, 37),
+    (ORPHA, 1, 60, 41),
+];
+
+fn large_linked(rec: usize, leaf_id: u32) -> bool {
+    let (_, _, k, mult) = LARGE_RECORDS[rec];
+    (u64::from(leaf_id) * u64::from(mult)) % u64::from(BIG_M) < u64::from(k)
+}
+
+thread_local! {
+    static BIG: Ontology = {
+        use hpo::annotations::{GeneId, OmimDiseaseId, OrphaDiseaseId};
+        use hpo::builder::Builder;
+        let mut b = Builder::new();
+        b.new_term("root", 1u32);
+        for id in 2..=BIG_M + 1 {
+            b.new_term("leaf", id);
+        }
+        let mut b = b.terms_complete();
+        for id in 2..=BIG_M + 1 {
+            b.add_parent(1u32, id).unwrap();
+        }
+        let mut b = b.connect_all_terms();
+        for (r, (kind, rid, _, _)) in LARGE_RECORDS.iter().enumerate() {
+            for id in 2..=BIG_M + 1 {
+                if large_linked(r, id) {
+                    let t = hpo::HpoTermId::from_u32(id);
+                    match *kind {
+                        GENE => b.annotate_gene(GeneId::from(*rid), "g", t).unwrap(),
+                        OMIM => b.annotate_omim_disease(OmimDiseaseId::from(*rid), "o", t).unwrap(),
+                        _ => b.annotate_orpha_disease(OrphaDiseaseId::from(*rid), "p", t).unwrap(),
+                    }
+                }
+            }
+        }
+        b.calculate_information_content().unwrap().build_minimal()
+    };
+}
+
+#[allow(clippy::too_many_arguments)]
+fn check_large(mode: u8, stride: u32, offset: u32, target: usize, k: u32, n: u32, rot: u32, stats: &mut Stats) -> CheckResult {
+    ensure!(target < LARGE_RECORDS.len() && stride >= 1 && n >= 1, "harness/bad-case", "bad large case");
+    // background: all terms / all leaves / every stride-th leaf
+    let leaves: Vec<u32> = (2..=BIG_M + 1).filter(|id| mode < 2 || id % stride == offset % stride).collect();
+    let with_root = mode == 0;
+    let linked: Vec<u32> = leaves.iter().copied().filter(|id| large_linked(target, *id)).collect();
+    let unlinked: Vec<u32> = leaves.iter().copied().filter(|id| !large_linked(target, *id)).collect();
+    let k = (k as usize).min(linked.len()).min(n as usize);
+    let rest = (n as usize - k).min(unlinked.len());
+    let mut sample: Vec<u32> = Vec::with_capacity(k + rest);
+    for i in 0..k {
+        sample.push(linked[(rot as usize + i) % linked.len()]);
+    }
+    for i in 0..rest {
+        sample.push(unlinked[(rot as usize + i) % unlinked.len()]);
+    }
+    if sample.is_empty() {
+        return Ok(());
+    }
+    let pop = leaves.len() + usize::from(with_root);
+    let draws = sample.len();
+    BIG.with(|ont| {
+        for kind in 0..3 {
+            let mut bgt: Vec<HpoTerm> = leaves.iter().map(|t| ont.hpo(*t).unwrap()).collect();
+            if with_root {
+                bgt.push(ont.hpo(1u32).unwrap());
+            }
+            let smt: Vec<HpoTerm> = sample.iter().map(|t| ont.hpo(*t).unwrap()).collect();
+            let got = match enrich(kind, bgt, smt) {
+                Ok(v) => v,
+                Err(p) => return fail(format!("{}-enrichment/panic", KIND_NAMES[kind]), format!("N={pop} n={draws}: {p}")),
+            };
+            let mut expected = 0;
+            for (r, (rk, rid, _, _)) in LARGE_RECORDS.iter().enumerate() {
+                if *rk != kind {
+                    continue;
+                }
+                let succ = leaves.iter().filter(|id| large_linked(r, **id)).count() + usize::from(with_root);
+                let kk = sample.iter().filter(|id| large_linked(r, **id)).count();
+                stats.eval(1);
+                let tuple = format!("{}({rid}): N={pop} K={succ} n={draws} k={kk}", KIND_NAMES[kind]);
+                let o = got.iter().filter(|o| o.id == *rid).collect::<Vec<_>>();
+                if kk == 0 {
+                    ensure!(o.is_empty(), format!("{}-enrichment/unlinked-record-reported", KIND_NAMES[kind]), "{tuple}: reported although not linked to the sample");
+                    continue;
+                }
+                expected += 1;
+                ensure!(o.len() == 1, format!("{}-enrichment/record-missing", KIND_NAMES[kind]), "{tuple}: reported {} times", o.len());
+                let o = o[0];
+                ensure!(o.count == kk as u64, format!("{}-enrichment/count", KIND_NAMES[kind]), "{tuple}: count = {}", o.count);
+                ensure!(!o.p.is_nan() && o.p >= 0.0 && o.p <= 1.0, "pvalue/outside-0-1", "{tuple}: p-value {:e} outside [0,1]", o.p);
+                let want = hypergeom_tail_large(pop, succ, draws, kk);
+                ensure!(rel_close(o.p, want, LARGE_TOL), "pvalue/value/large-population", "{tuple}: p-value {:e}, exact tail P[X>=k] = {:e}", o.p, want);
+                let fold = (kk as f64 / draws as f64) / (succ as f64 / pop as f64);
+                ensure!(rel_close(o.fold, fold, 1e-12), "fold-enrichment", "{tuple}: enrichment {}, (k/n)/(K/N) = {fold}", o.fold);
+                if std::env::var("C06_DEBUG").is_ok() && want > 0.0 {
+                    eprintln!("relerr {:e} {tuple} p={:e}", ((o.p - want) / want).abs(), want);
+                }
+                if kk < succ.min(draws) && succ < pop {
+                    stats.nontrivial(((pop as u64) << 48) | ((succ as u64) << 32) | ((draws as u64) << 16) | kk as u64);
+                    stats.label("nontrivial");
+                    if want < 1e-12 && want > 0.0 {
+                        stats.label("large:p<1e-12");
+                    }
+                    if (kk as f64) < 0.5 * draws as f64 * succ as f64 / pop as f64 {
+                        stats.label("large:k-far-below-mean");
+                    }
+                }
+            }
+            ensure!(got.len() == expected, format!("{}-enrichment/extra-records", KIND_NAMES[kind]), "{} records reported, {expected} linked to the sample", got.len());
+        }
+        stats.label("N~20000");
+        Ok(())
+    })
+}
+
+/// tolerance for populations of ~20 000 (ln-gamma based terms of size ~1e4..1e5 lose a few more digits)
+const LARGE_TOL: f64 = 1e-8;
 
 struct Obs {
     id: u32,
@@ -210,6 +342,7 @@ pub fn check(c: &Case, stats: &mut Stats) -> CheckResult {
     match c {
         Case::Enrich { background, sample } => check_enrich(background, sample, stats),
         Case::Sweep { background, n, kind, rec } => check_sweep(background, *n, *kind as usize, *rec, stats),
+        Case::Large { mode, stride, offset, target, k, n, rot } => check_large(*mode, *stride, *offset, *target as usize, *k, *n, *rot, stats),
     }
 }
 
@@ -243,7 +376,9 @@ fn strategy() -> BoxedStrategy<Case> {
         let n = 1 + pick(np, background.len());
         Case::Sweep { background, n, kind, rec }
     });
-    prop_oneof![3 => enrich, 2 => sweep].boxed()
+    let large = (0u8..3, 2u32..6, any::<u16>(), 0u8..10, prop_oneof![3 => 0u32..40, 1 => 0u32..2500], prop_oneof![2 => 1u32..80, 2 => 80u32..2500], any::<u16>())
+        .prop_map(|(mode, stride, offset, target, k, n, rot)| Case::Large { mode, stride, offset: u32::from(offset), target, k, n, rot: u32::from(rot) });
+    prop_oneof![30 => enrich, 20 => sweep, 1 => large].boxed()
 }
 
 impl Property for C06 {
@@ -251,7 +386,7 @@ impl Property for C06 {
         "C06"
     }
     fn rule(&self) -> String {
-        "Fixed two-level ontology (root, 20 inner nodes, 420 leaves; 30 records per kind with the same ids in every kind, annotated to pseudo-random K-subsets of the leaves, K from 1 to 420 incl. 168..172). Generated per case: a background (subset of the terms, leaves only or with inner nodes/root so that K also arises by inheritance; sizes biased to 1..30, 160..182 and up to 441) and a sample drawn from it; k-sweep cases fix N, K, n and build a sample for every feasible k. All three enrichment functions. Oracle: result ids = records linked to >=1 sample term, each once; count = k; p-value vs P[X>=k] computed with exact big integers (Pascal triangle, one rounding), relative 1e-9; fold = (k/n)/(K/N) relative 1e-12; 0<=p<=1 and p non-increasing in k along a sweep, both exact. evaluations = (record, N, K, n, k) tuples. Non-trivial = 0<k<min(K,n) and K<N; distinct = distinct (N,K,n,k) tuples (plus distinct sweeps).".into()
+        "Fixed two-level ontology (root, 20 inner nodes, 420 leaves; 30 records per kind with the same ids in every kind, annotated to pseudo-random K-subsets of the leaves, K from 1 to 420 incl. 168..172). Generated per case: a background (subset of the terms, leaves only or with inner nodes/root so that K also arises by inheritance; sizes biased to 1..30, 160..182 and up to 441) and a sample drawn from it; k-sweep cases fix N, K, n and build a sample for every feasible k. A small share of the cases (about 2 %) uses a second fixture of real-HPO size: a flat ontology with 20 000 leaves and 10 records with K from 1 to 19 000; background = all terms / all leaves / every s-th leaf, sample = k linked + n-k unlinked terms (n up to 2500), exact tail by a multiplicative big-integer recurrence, tolerance 1e-8. All three enrichment functions. Oracle: result ids = records linked to >=1 sample term, each once; count = k; p-value vs P[X>=k] computed with exact big integers (Pascal triangle, one rounding), relative 1e-9; fold = (k/n)/(K/N) relative 1e-12; 0<=p<=1 and p non-increasing in k along a sweep, both exact. evaluations = (record, N, K, n, k) tuples. Non-trivial = 0<k<min(K,n) and K<N; distinct = distinct (N,K,n,k) tuples (plus distinct sweeps).".into()
     }
     fn assumptions(&self) -> Vec<String> {
         vec![
@@ -267,7 +402,7 @@ impl Property for C06 {
         }
     }
     fn required_labels(&self, _tier: Tier) -> Vec<&'static str> {
-        vec!["nontrivial", "N<=170", "N>170", "k-sweep>=3", "background-with-inner-nodes"]
+        vec!["nontrivial", "N<=170", "N>170", "N~20000", "large:p<1e-12", "large:k-far-below-mean", "k-sweep>=3", "background-with-inner-nodes"]
     }
     fn run_generated(&self, _tier: Tier, seed: u64, n: u64, stats: &mut Stats) -> Option<(Value, Failure)> {
         run_typed(strategy(), seed, n, stats, check)
